@@ -4,10 +4,15 @@ package main
 
 import (
 	"context"
+	"encoding/json"
 	"fmt"
+	"io"
 	"math/rand"
 	"strings"
 	"sync"
+	"time"
+
+	"github.com/pojntfx/panrpc/go/pkg/rpc"
 )
 
 func c08Transcript[T any](codec Codec[T], api string, chunk func(int) int, rng *rand.Rand, script []int) ([]string, error) {
@@ -103,7 +108,81 @@ func c08Transcript[T any](codec Codec[T], api string, chunk func(int) int, rng *
 	return t, nil
 }
 
+// c08HangUp: the peer writes k one-way requests and disappears; every request written before the
+// hang-up must be handled, whichever link API carries it.
+func c08HangUp(api string, k int) (handled int, err error) {
+	side := newSide[json.RawMessage]("V")
+	codec := jsonRaw()
+	ctx, cancel := context.WithCancel(context.Background())
+	defer cancel()
+	linkErr := make(chan error, 1)
+	var frames [][]byte
+	for i := 0; i < k; i++ {
+		frames = append(frames, []byte(fmt.Sprintf(`{"call":"h%d","function":"NoRet","args":[%d]}`, i, i)))
+	}
+	switch api {
+	case "message":
+		inReq, inRes, out := NewQueue(), NewQueue(), NewQueue()
+		inReq.Drain = true
+		go func() {
+			linkErr <- side.Reg.LinkMessage(ctx,
+				func(b json.RawMessage) error { return out.Put(b) }, func(b json.RawMessage) error { return out.Put(b) },
+				func() (json.RawMessage, error) { b, e := inReq.Get(); return b, e }, func() (json.RawMessage, error) { b, e := inRes.Get(); return b, e },
+				codec.Marshal, codec.Unmarshal, nil)
+		}()
+		for _, f := range frames {
+			inReq.Put(f)
+		}
+		inReq.Close(io.EOF)
+		inRes.Close(io.EOF)
+	case "stream":
+		pr, pw := io.Pipe()
+		dec := json.NewDecoder(pr)
+		go func() {
+			linkErr <- side.Reg.LinkStream(ctx,
+				func(m rpc.Message[json.RawMessage]) error { return nil },
+				func(m *rpc.Message[json.RawMessage]) error { return dec.Decode(m) },
+				codec.Marshal, codec.Unmarshal, nil)
+		}()
+		go func() {
+			for _, f := range frames {
+				fmt.Fprintf(pw, `{"request":%s,"response":null}`+"\n", f)
+			}
+			pw.Close()
+		}()
+	}
+	select {
+	case <-linkErr:
+	case <-time.After(watchdog):
+		return 0, fmt.Errorf("Link did not return after the peer hung up")
+	}
+	time.Sleep(20 * time.Millisecond)
+	for _, inv := range side.Svc.Invocations() {
+		if inv.Method == "NoRet" {
+			handled++
+		}
+	}
+	return handled, nil
+}
+
 func runC08(rep *Report, tier string, seed int64) {
+	hangs := 10
+	if tier == "thorough" {
+		hangs = 200
+	}
+	for i := 0; i < hangs; i++ {
+		k := 1 + i%8
+		for _, api := range apis() {
+			rep.Evaluations++
+			n, err := c08HangUp(api, k)
+			if err != nil {
+				rep.addViolation("property", "C08:hangup:"+api, err.Error(), map[string]any{"suite": "C08-hangup", "api": api, "requests": k})
+			} else if n != k {
+				rep.addViolation("property", "C08:hangup:"+api, fmt.Sprintf("the peer wrote %d requests and hung up: %d handlers ran over the %s API (every request written before the hang-up must be handled, as over a message transport)", k, n, api),
+					map[string]any{"suite": "C08-hangup", "api": api, "requests": k})
+			}
+		}
+	}
 	rep.Rule = "one seeded sequential workload (echo, int64 arithmetic, errors with blanks, value+error, closures with error results, nested bounce, nested names, no-result call, slices, typed closure arguments, teardown) is replayed under " +
 		"{message API, stream API whole writes, stream API with PRNG chunking 1..7 bytes} × {JSON raw, JSON bytes, CBOR}; the normalised transcripts (results, errors, invocation logs, hook events) must be pairwise equal. distinct = (workload seed, configuration)"
 	rounds := 10
